@@ -1,8 +1,10 @@
 (* Property C10 — request strings can never change the structure of SQL sent to ClickHouse.
    Only statements; proofs by reference. *)
+From Qryn Require Import lib.Strs model.Sql model.SqlRender.   (* first: List.In, Quote.esc/quote below shadow Sql.In, SqlRender.esc/quote *)
 From Coq Require Import List String Ascii Bool ZArith.
-From Qryn Require Import model.Quote model.ChLex model.Like model.SqlSites model.SqlTemplate gen.GenC10Sites.
-From Qryn Require Import proofs.QuoteProofs proofs.ChLexProofs proofs.LikeProofs proofs.SqlSitesProofs proofs.SqlTemplateProofs.
+From Qryn Require Import model.Quote model.ChLex model.Like model.SqlSites model.SqlTemplate model.SqlPieces gen.GenC10Sites.
+From Qryn Require Import proofs.QuoteProofs proofs.ChLexProofs proofs.LikeProofs proofs.SqlSitesProofs proofs.SqlTemplateProofs
+  proofs.SqlPiecesProofs.
 Import ListNotations.
 Open Scope string_scope.
 
@@ -148,3 +150,55 @@ Proof. repeat split; reflexivity. Qed.
 Theorem all_sql_sites_classified : forallb safe_site gen_sql_sites = true.
 Proof. vm_compute. reflexivity. Qed.
 Print Assumptions all_sql_sites_classified.
+
+(* ---- THROUGH THE RENDERER (model/SqlRender.v: the byte-exact model of reader/utils/sql_select that C07/C08 tie to
+   the real planners byte for byte).  model/SqlPieces.v renders the same tree into a SEGMENTED text: the planner's
+   own text, and one piece per StrV node (a value) or QRaw node (an identifier spliced between quotes). *)
+
+(* the renderer is the flattening of the segmented renderer: for every tree, every option set, every counter state *)
+Theorem renderer_factors_through_pieces : forall q cluster,
+  render q cluster = option_map flat (pieces q cluster).
+Proof. exact render_pieces. Qed.
+Print Assumptions renderer_factors_through_pieces.
+
+(* Structure of every rendered statement.  pok is computed on the segmented text and never looks inside a value:
+   every value piece is reached where a quote opens a literal, no text after a value begins with a quote, raw-quoted
+   identifiers consist of bytes the escaper copies unchanged.  Then the token list of the statement is etoks: the
+   tokens of the planner's text and exactly ONE string literal token per value, decoding to the value. *)
+Theorem rendered_statement_tokens : forall q cluster p, pieces q cluster = Some p -> pok QN p = true ->
+  exists txt, render q cluster = Some txt /\ lex txt = etoks QN p /\ lits (lex txt) = elits QN p.
+Proof. exact rendered_tokens. Qed.
+Print Assumptions rendered_statement_tokens.
+
+(* The property over trees, for ALL values: replace the content of every StrV node of a tree by anything (f; with
+   f = "put the request string where the harmless marker was" this is the tree for the request string) - the
+   statement keeps its token skeleton, it has exactly one literal per value piece, and those literals decode to the
+   new values.  No hypothesis on f. *)
+Theorem request_values_keep_statement_structure : forall f q cluster p,
+  pieces q cluster = Some p -> pok QN p = true ->
+  exists txt txt', render q cluster = Some txt /\ render (subst_sel f q) cluster = Some txt' /\
+    skeleton (lex txt') = skeleton (lex txt) /\
+    lex txt' = etoks QN (pm f p) /\ rvalues (pm f p) = map f (rvalues p).
+Proof. exact values_keep_structure. Qed.
+Print Assumptions request_values_keep_statement_structure.
+
+(* text level: two segmented texts that differ only inside their value pieces *)
+Theorem same_shape_same_structure : forall p p', shape p = shape p' ->
+  forallb (all_chars plain_char) (rqids p') = true -> pok QN p = true ->
+  pok QN p' = true /\ skeleton (lex (flat p')) = skeleton (lex (flat p)).
+Proof. exact same_shape_same_skeleton. Qed.
+Print Assumptions same_shape_same_structure.
+
+(* the hypotheses are met by a real tree: the label-filter statement of {a="zqxmark"} | b = "zqxmark" with the
+   JSONExtractString(labels, 'b') form (QRaw), a date literal and a LIMIT *)
+Example tree_example :
+  let q := mkSel false [Col (Id "fingerprint") ""; Col (Fn "JSONExtractString" [Id "labels"; QRaw "b"]) "v"]
+             (Some (Id "time_series")) (Some (LOp OAnd [LOp OGe [Id "date"; DateV 19675];
+                                                         LOp OEq [Id "key"; StrV "a"]; LOp OEq [Id "val"; StrV "zqxmark"];
+                                                         Sql.In (Id "type") [IntV 1; IntV 0]]))
+             None (Some (LOp ONeq [Fn "JSONExtractString" [Id "labels"; QRaw "b"]; StrV "zqxmark"])) [Id "fingerprint"] [] (Some (IntV 100)) None [] [] [] [] in
+  match pieces q false with
+  | Some p => pok QN p = true /\ rvalues p = ["a"; "zqxmark"; "zqxmark"] /\ rqids p = ["b"; "b"]
+  | None => False
+  end.
+Proof. vm_compute. repeat split; reflexivity. Qed.
